@@ -281,6 +281,27 @@ class Run:
         return status
 
 
+def coqchk_props(run):
+    """thorough tier: the independent checker re-checks the compiled statement file of this property and everything it
+    depends on (theories, generated files, obligations, std++ and the standard library) and prints the axioms"""
+    vo = os.path.join(COQ, "props", run.pid + ".vo")
+    with Lock():
+        if not os.path.exists(vo):
+            run.cov["coqchk"] = {"rc": None, "note": "props/%s.vo was not built (obligation failed earlier)" % run.pid}
+            return
+        rc, out = sh("timeout 1800 coqchk -silent -o -Q theories Fsn -Q gen FsnGen -Q obl FsnObl -Q props FsnProps FsnProps.%s" % run.pid,
+                     cwd=COQ, timeout=1830)
+    m = re.search(r"\* Axioms:\s*(.*?)\n\s*\n", out, re.S)
+    axioms = m.group(1).strip() if m else "?"
+    run.cov["coqchk"] = {"rc": rc, "axioms": axioms, "output_tail": out[-900:]}
+    if rc not in (0, 124):
+        run.violation("coqchk", "coqchk rejects the compiled development of %s" % run.pid,
+                      {"theorem": "props/%s.vo closure" % run.pid, "log": out[-3000:]}, nofail=True)
+    elif rc == 0 and axioms != "<none>":
+        run.violation("coqchk-axioms", "the compiled development of %s depends on axioms: %s" % (run.pid, axioms),
+                      {"theorem": "props/%s.vo closure" % run.pid, "axioms": axioms}, nofail=True)
+
+
 def load_known_findings(pid):
     out = {}
     p = os.path.join(VERIF, "KNOWN_FINDINGS.txt")
